@@ -191,6 +191,24 @@ pub fn run(tier: Tier) -> ! {
         families.push(json!({"family": "branching: `P|Q` for all ordered pairs of the branch patterns of C02/C03, inputs {a,b,x,y,z}^<=4 resp. {a,b,x,y,p,q,r}^<=3", "pairs": n, "exhaustive": true}));
     }
 
+    // special characters at the start, in the middle and at the end of the input (byte order
+    // mark, U+0000, line and paragraph separators, blank): every input over them up to length 3
+    {
+        let cfgs = vec![
+            Cfg::single(vec![bridge::CPat::new("[^ ]+", 0), bridge::CPat::new(" ", 1)]),
+            Cfg::single(vec![bridge::CPat::new(".", 0), bridge::CPat::new("\\n", 1)]),
+            Cfg::single(vec![bridge::CPat::new("[\\x{feff}a]", 0), bridge::CPat::new("a+", 1), bridge::CPat::new("[^a]", 2)]),
+        ];
+        let ins_sp = inputs(&['\u{feff}', 'a', ' ', '\n', '\0', '\u{2028}'], 3);
+        let accs = par_for(cfgs.len(), 1, || Acc { samples: Samples::new(1), ..Default::default() }, |acc, i| {
+            run_cfg(acc, &cfgs[i], &ins_sp, &tables, "special-characters");
+        });
+        for a in accs {
+            merge(&mut total, a);
+        }
+        families.push(json!({"family": "special characters: every input over {U+FEFF, a, blank, line feed, U+0000, U+2028} up to length 3 on three pattern sets with wide classes", "configurations": cfgs.len(), "inputs": ins_sp.len(), "exhaustive": true}));
+    }
+
     // registration order: character class ids follow the order of first use, not the priority order
     // of the patterns that compete; a leading pattern `#XYZ` (never matched here) registers the
     // classes of three competing patterns in every permutation
